@@ -104,6 +104,11 @@ type c35Scenario struct {
 	Excluded int    `json:"excluded"` // the one member not included in the attempt
 	History  []c35M `json:"history"`
 	Timeouts []int  `json:"timeouts_ms"` // context expiry alternatives (check interval: 100 ms)
+	// Prelude: members that confirmed the PREVIOUS attempt (attempt number - 1, same
+	// message, same member set) on the same done-check instance before that attempt
+	// timed out; the instance is then reused for this attempt, as the signing retry loop
+	// does. Their old confirmations must not count for this attempt.
+	Prelude []int `json:"prelude,omitempty"`
 }
 
 func (sc c35Scenario) String() string {
@@ -111,7 +116,11 @@ func (sc c35Scenario) String() string {
 	for _, m := range sc.History {
 		p = append(p, m.String())
 	}
-	return fmt.Sprintf("excluded=%d [%s]", sc.Excluded, strings.Join(p, " "))
+	pre := ""
+	if len(sc.Prelude) > 0 {
+		pre = fmt.Sprintf(" after-attempt-with-confirmations-from=%v", sc.Prelude)
+	}
+	return fmt.Sprintf("excluded=%d [%s]%s", sc.Excluded, strings.Join(p, " "), pre)
 }
 
 func (sc c35Scenario) included() []group.MemberIndex {
@@ -203,6 +212,21 @@ func c35Body(sc c35Scenario, obs *c35Obs) func() {
 		mv := group.NewMembershipValidator(&testutils.MockLogger{}, operators, c35Signing{})
 		sdc := newSigningDoneCheck(c35GroupSize, ch, mv)
 
+		if len(sc.Prelude) > 0 {
+			ctx0, cancel0 := vctx.WithCancel(context.Background())
+			sdc.listen(ctx0, c35Message, c35Attempt-1, c35TimeoutBlock, sc.included())
+			for i, sender := range sc.Prelude {
+				d := &signingDoneMessage{
+					senderID:      group.MemberIndex(sender),
+					message:       new(big.Int).Set(c35Message),
+					attemptNumber: c35Attempt - 1,
+					signature:     c35SigA(),
+					endBlock:      400 + uint64(sender),
+				}
+				ch.handler(&c35NetMsg{pk: c35Key(sender), payload: d, seq: uint64(1000 + i)})
+			}
+			cancel0() // the previous attempt timed out
+		}
 		obs.timeoutMs = sc.Timeouts[vsched.Choose(len(sc.Timeouts), "ctxTimeout")]
 		ctx, cancel := vctx.WithTimeout(context.Background(), time.Duration(obs.timeoutMs)*time.Millisecond)
 		defer cancel()
@@ -494,7 +518,7 @@ func TestVerifC35(t *testing.T) {
 	// determinism gate
 	shard, _ := r.Shard()
 	if shard == 0 {
-		sc := c35Scenario{4, []c35M{{1, "ok"}, {2, "ok"}, {4, "ok"}, {3, "ok"}}, timeouts}
+		sc := c35Scenario{4, []c35M{{1, "ok"}, {2, "ok"}, {4, "ok"}, {3, "ok"}}, timeouts, nil}
 		a := vsched.Replay(nil, opts(0), c35Body(sc, &obs))
 		oa := fmt.Sprintf("%+v", obs)
 		b := vsched.Replay(nil, opts(0), c35Body(sc, &obs))
@@ -518,7 +542,23 @@ func TestVerifC35(t *testing.T) {
 				if !r.Mine(idx) || r.Expired() {
 					continue
 				}
-				sc := c35Scenario{ex, h, timeouts}
+				sc := c35Scenario{ex, h, timeouts, nil}
+				if len(h) <= 2 {
+					// short histories also run on an instance that already served the
+					// previous, timed-out attempt with two confirmations
+					var pre []int
+					for m := 1; m <= c35GroupSize && len(pre) < 2; m++ {
+						if m != ex {
+							pre = append(pre, m)
+						}
+					}
+					scp := c35Scenario{ex, h, timeouts, pre}
+					stp := vsched.Explore(opts(lg.bound), c35Body(scp, &obs), func(s *vsched.Sched) { evaluate(scp, lg.bound, s) })
+					execs += stp.Execs
+					if stp.Stopped {
+						r.Cap("leg " + lg.name + " not completed")
+					}
+				}
 				confirms := 0
 				for _, m := range h {
 					if _, _, ok := c35Confirms(m); ok {
